@@ -125,6 +125,59 @@ ObsFields == {"href", "protocol", "username", "password", "host", "hostname", "p
               "pathname", "search", "hash", "origin", "flags", "host_type", "scheme_type",
               "comps", "href_size", "valid_domain"}
 
+\* ---- to_string(): the diagnostic JSON dump of both URL types (ada's own format, not a Standard: transcribed from
+\* src/url.cpp / src/url_aggregator.cpp).  ada::url dumps its RECORD (host without port, path, query and fragment
+\* without their delimiters, presence by omission); url_aggregator dumps its buffer, the getter values and the eight
+\* component offsets ("null" = omitted).  Strings are JSON-escaped: \\ and " by a backslash, bytes below 0x20 as \u00XX.
+TS_Open == << 123, 10 >>
+TS_Close == << 10, 125 >>
+TS_QComma == << 34, 44, 10 >>
+TS_Quote == << 34 >>
+TS_CommaNl == << 44, 10 >>
+TS_Protocol == << 9, 34, 112, 114, 111, 116, 111, 99, 111, 108, 34, 58, 34 >>
+TS_Username == << 9, 34, 117, 115, 101, 114, 110, 97, 109, 101, 34, 58, 34 >>
+TS_Password == << 9, 34, 112, 97, 115, 115, 119, 111, 114, 100, 34, 58, 34 >>
+TS_Host == << 9, 34, 104, 111, 115, 116, 34, 58, 34 >>
+TS_Port == << 9, 34, 112, 111, 114, 116, 34, 58, 34 >>
+TS_Path == << 9, 34, 112, 97, 116, 104, 34, 58, 34 >>
+TS_Opaque == << 9, 34, 111, 112, 97, 113, 117, 101, 32, 112, 97, 116, 104, 34, 58 >>
+TS_Query == << 9, 34, 113, 117, 101, 114, 121, 34, 58, 34 >>
+TS_Hash == << 9, 34, 104, 97, 115, 104, 34, 58, 34 >>
+TS_Fragment == << 9, 34, 102, 114, 97, 103, 109, 101, 110, 116, 34, 58, 34 >>
+TS_Buffer == << 9, 34, 98, 117, 102, 102, 101, 114, 34, 58, 34 >>
+TS_True == << 116, 114, 117, 101 >>
+TS_False == << 102, 97, 108, 115, 101 >>
+TS_Null == << 110, 117, 108, 108 >>
+TS_OffNames == << << 9, 34, 112, 114, 111, 116, 111, 99, 111, 108, 95, 101, 110, 100, 34, 58 >>, << 9, 34, 117, 115, 101, 114, 110, 97, 109, 101, 95, 101, 110, 100, 34, 58 >>, << 9, 34, 104, 111, 115, 116, 95, 115, 116, 97, 114, 116, 34, 58 >>, << 9, 34, 104, 111, 115, 116, 95, 101, 110, 100, 34, 58 >>, << 9, 34, 112, 111, 114, 116, 34, 58 >>, << 9, 34, 112, 97, 116, 104, 110, 97, 109, 101, 95, 115, 116, 97, 114, 116, 34, 58 >>, << 9, 34, 115, 101, 97, 114, 99, 104, 95, 115, 116, 97, 114, 116, 34, 58 >>, << 9, 34, 104, 97, 115, 104, 95, 115, 116, 97, 114, 116, 34, 58 >> >>
+JsonEsc(s) ==
+  FoldLeft(LAMBDA acc, c : acc \o (IF c = 92 THEN << 92, 92 >> ELSE IF c = 34 THEN << 92, 34 >>
+                                    ELSE IF c <= 31 THEN << 92, 117, 48, 48, HexDigitLower(c \div 16), HexDigitLower(c % 16) >>
+                                    ELSE << c >>), <<>>, s)
+TS_Bool(b) == IF b THEN TS_True ELSE TS_False
+UrlToString(u) ==
+  TS_Open \o TS_Protocol \o JsonEsc(GetProtocol(u)) \o TS_QComma
+  \o (IF IncludesCredentials(u) THEN TS_Username \o JsonEsc(u.user) \o TS_QComma \o TS_Password \o JsonEsc(u.pass) \o TS_QComma ELSE <<>>)
+  \o (IF ~HostIsNull(u) THEN TS_Host \o JsonEsc(GetHostname(u)) \o TS_QComma ELSE <<>>)
+  \o (IF u.port # -1 THEN TS_Port \o DecStr(u.port) \o TS_QComma ELSE <<>>)
+  \o TS_Path \o JsonEsc(PathSerialize(u)) \o TS_QComma
+  \o TS_Opaque \o TS_Bool(u.opaque)
+  \o (IF u.query # Null THEN TS_CommaNl \o TS_Query \o JsonEsc(u.query) \o TS_Quote ELSE <<>>)
+  \o (IF u.frag # Null THEN TS_CommaNl \o TS_Hash \o JsonEsc(u.frag) \o TS_Quote ELSE <<>>)
+  \o TS_Close
+AggToString(u) ==
+  LET c == Components(u)
+      Off(i) == TS_OffNames[i] \o (IF c[i] = -1 THEN TS_Null ELSE DecStr(c[i])) \o (IF i < 8 THEN TS_CommaNl ELSE <<>>)
+  IN TS_Open \o TS_Buffer \o JsonEsc(Serialize(u)) \o TS_QComma
+     \o TS_Protocol \o JsonEsc(GetProtocol(u)) \o TS_QComma
+     \o (IF IncludesCredentials(u) THEN TS_Username \o JsonEsc(u.user) \o TS_QComma \o TS_Password \o JsonEsc(u.pass) \o TS_QComma ELSE <<>>)
+     \o TS_Host \o JsonEsc(GetHost(u)) \o TS_QComma
+     \o TS_Path \o JsonEsc(PathSerialize(u)) \o TS_QComma
+     \o TS_Opaque \o TS_Bool(u.opaque) \o TS_CommaNl
+     \o (IF c[7] # -1 THEN TS_Query \o JsonEsc(GetSearch(u)) \o TS_QComma ELSE <<>>)
+     \o (IF c[8] # -1 THEN TS_Fragment \o JsonEsc(GetHash(u)) \o TS_QComma ELSE <<>>)
+     \o Off(1) \o Off(2) \o Off(3) \o Off(4) \o Off(5) \o Off(6) \o Off(7) \o Off(8)
+     \o TS_Close
+
 \* ---- inverse projection: the record denoted by an observation ----
 \* (presence predicates make Null vs "" observable, so the projection is invertible)
 RecOf(o) ==
